@@ -56,6 +56,8 @@ Inductive op :=
 | OIndexOfChI (ch from : N) | OLastIndexOfChI (ch from : N)
 | OParseNumSuffix (def : N) | OStartsWithNumber (neg : bool)
 | OEqualsCh (ch : N) | OEqualsChI (ch : N) | OStartsChI (ch : N) | OEndsChI (ch : N)
+| OGetDistance (a : sarg) (max : N)
+| ONumCmp (a : sarg) (fold : bool)
 | OFlatten
 (* producers: the result is a new String; the subject is unchanged *)
 | OCopy | OCopyPre (extra : N)
@@ -576,6 +578,8 @@ Definition query (l : list N) (self : list N) (o : op) : option out0 :=
   | OEqualsChI ch => Some (R0Bool ((lenN l =? 1) && (to_lower (nthN 0 l) =? to_lower ch)))
   | OStartsChI ch => Some (R0Bool ((0 <? lenN l) && (to_lower (nthN 0 l) =? to_lower ch)))
   | OEndsChI ch => Some (R0Bool ((0 <? lenN l) && (to_lower (nthN (lenN l - 1) l) =? to_lower ch)))
+  | OGetDistance a max => Some (R0Nat (l0_distance l (sb a) max))
+  | ONumCmp a fold => Some (R0Int (l0_natcmp l (sb a) fold))
   | _ => None
   end.
 
@@ -793,6 +797,8 @@ Fixpoint dealias (l : list N) (o : op) : op :=
   | OPlusS a => OPlusS (S a)
   | OWithoutSuffixSI a m => OWithoutSuffixSI (S a) m | OWithoutPrefixSI a m => OWithoutPrefixSI (S a) m
   | OWithWord i a sep => OWithWord i (S a) sep
+  | OGetDistance a m => OGetDistance (S a) m
+  | ONumCmp a f => ONumCmp (S a) f
   | OAssign o' => OAssign (dealias l o')
   | _ => o
   end.
